@@ -141,3 +141,51 @@ void h20d(void) {
         WITNESS("h20d-reject");
     }
 }
+
+/* H20e: the straight-line reference env/compint_spec.c (linked by parser harnesses in place of compint.c) is
+ * equivalent to the real compint.c on every input: verdict, value, cursor, error state; encoders byte for byte. */
+#ifdef H_h20e
+int spec_compint_to_size(zckCtx *zck, size_t *val, const char *compint, size_t *length, size_t max_length);
+int spec_compint_to_int(zckCtx *zck, int *val, const char *compint, size_t *length, size_t max_length);
+void spec_compint_from_size(char *compint, size_t val, size_t *length);
+int spec_compint_from_int(zckCtx *zck, char *compint, int val, size_t *length);
+void h20e(void) {
+    size_t n = nondet_size_t();
+    ASSUME(n >= 1 && n <= NMAX);
+    unsigned char *base = malloc(n);
+    ASSUME(base != NULL);
+    for(size_t i = 0; i < NMAX; i++) if(i < n) { base[i] = nondet_uchar(); IN_buf[i] = base[i]; }
+    size_t cur = nondet_size_t();
+    ASSUME(cur <= n);
+    IN_n = n; IN_cur = cur;
+    int pre_err = nondet_int();
+    ASSUME(pre_err >= 0 && pre_err <= 2);
+    zckCtx *za = mkctx(), *zb = mkctx();
+    za->error_state = pre_err; zb->error_state = pre_err;
+    size_t init = nondet_size_t();
+    if(nondet_bool()) {
+        size_t va = init, vb = init, la = cur, lb = cur;
+        int ra = compint_to_size(za, &va, (const char *)base + cur, &la, n);
+        int rb = spec_compint_to_size(zb, &vb, (const char *)base + cur, &lb, n);
+        OBLIGE((ra != 0) == (rb != 0), "C20/spec-equivalent-size-verdict");
+        if(ra) OBLIGE(va == vb && la == lb, "C20/spec-equivalent-size-value-and-cursor");
+        else if(pre_err == 0) OBLIGE(la == cur, "C20/failed-decode-leaves-cursor");
+        OBLIGE(za->error_state == zb->error_state, "C20/spec-equivalent-error-state");
+    } else {
+        int ia = (int)init, ib = (int)init; size_t la = cur, lb = cur;
+        int ra = compint_to_int(za, &ia, (const char *)base + cur, &la, n);
+        int rb = spec_compint_to_int(zb, &ib, (const char *)base + cur, &lb, n);
+        OBLIGE((ra != 0) == (rb != 0), "C20/spec-equivalent-int-verdict");
+        if(ra) OBLIGE(ia == ib && la == lb, "C20/spec-equivalent-int-value-and-cursor");
+        OBLIGE(za->error_state == zb->error_state, "C20/spec-equivalent-error-state");
+    }
+    /* encoders */
+    size_t v = nondet_size_t(), ea = 0, eb = 0;
+    unsigned char oa[MAX_COMP_SIZE], ob[MAX_COMP_SIZE];
+    compint_from_size((char *)oa, v, &ea);
+    spec_compint_from_size((char *)ob, v, &eb);
+    OBLIGE(ea == eb, "C20/spec-equivalent-encoder-length");
+    for(size_t k = 0; k < 10; k++) if(k < ea) OBLIGE(oa[k] == ob[k], "C20/spec-equivalent-encoder-bytes");
+    WITNESS("h20e-end");
+}
+#endif
